@@ -144,6 +144,29 @@ class CallMixin:
             raise OutOfSubset('class attribute %s.%s' % (v.qual, attr))
         if isinstance(v, SV) and v.t.kind == 'tuple' and v.t.name:
             v = unpack(st, v.e, v.t)
+        if isinstance(v, TupV) and v.cls == 'BVec' and attr in ('all', 'any'):
+            conds = [self.truth(x, st) for x in v.items]
+            val = SV(BOOL, z3.And(conds) if attr == 'all' else z3.Or(conds))
+            yield FunV('lambda', ast.parse('lambda: __v', mode='eval').body, {'__v': val}), st
+            return
+        if isinstance(v, TupV) and v.cls in ('Vec', 'Mat'):
+            if attr == 'size':
+                yield mk_int(len(v.items)), st
+                return
+            if attr == 'shape':
+                yield TupV([mk_int(len(v.items))] + ([mk_int(len(v.items[0].items))] if v.cls == 'Mat' else [])), st
+                return
+            if attr == 'flatten' and v.cls == 'Vec':
+                yield FunV('lambda', ast.parse('lambda: __v', mode='eval').body, {'__v': v}), st
+                return
+            fi = self.find_method_for('mouette.geometry.vector.Vec', attr)
+            if fi is not None and v.cls == 'Vec':
+                if fi.is_property:
+                    yield from self.call_fn(fi, [v], {}, st, node)
+                else:
+                    yield FunV('qual', qual=fi.qual, self_=(None if fi.is_static else v)), st
+                return
+            raise OutOfSubset('Vec.%s' % attr)
         if isinstance(v, TupV) and v.cls is not None:
             names = VALUE_FIELDS[v.cls]
             if attr in names:
@@ -199,6 +222,10 @@ class CallMixin:
             return SortV('Int', INT)
         if name in ('True', 'False'):
             return mk_bool(name == 'True')
+        if name == 'pi':
+            from .numeric import PI as _PI
+            st.assume(z3.And(_PI > z3.RealVal('3.14159'), _PI < z3.RealVal('3.1416')))
+            return SV(REAL, _PI)
         if name in self.EXTERNAL_MODULES and self.EXTERNAL_MODULES[name]:
             return ModuleV(self.EXTERNAL_MODULES[name])
         if name in BUILTIN_NAMES or name in REG.predicates or name in REG.ufuncs:
@@ -230,7 +257,9 @@ class CallMixin:
         if m.name == 'mouette.config':
             return self.config_flag(attr, st)
         if m.name == 'math' and attr == 'pi' or m.name == 'numpy' and attr == 'pi':
-            return SV(REAL, PI)
+            from .numeric import PI as _PI
+            st.assume(z3.And(_PI > z3.RealVal('3.14159'), _PI < z3.RealVal('3.1416')))
+            return SV(REAL, _PI)
         if m.name in ('math', 'numpy') and attr == 'inf':
             return SV(REAL, INF)
         return None
@@ -409,6 +438,16 @@ class CallMixin:
 
     def compare_obj(self, op, l, r, st, node):
         l, r = self.lift(l), self.lift(r)
+        if (isinstance(l, TupV) and l.cls == 'Vec') or (isinstance(r, TupV) and r.cls == 'Vec'):
+            from .numeric import as_vec
+            n = len(l.items) if isinstance(l, TupV) and l.cls == 'Vec' else len(r.items)
+            ls = l.items if isinstance(l, TupV) and l.cls == 'Vec' else [l] * n
+            rs = r.items if isinstance(r, TupV) and r.cls == 'Vec' else [r] * n
+            if len(ls) != len(rs):
+                self.safety(st, z3.BoolVal(False), 'vector-shape', node)
+                raise PathEnd()
+            yield TupV([SV(BOOL, self.compare(op, a, b, st, node)) for a, b in zip(ls, rs)], 'BVec'), st
+            return
         if isinstance(l, TupV) and l.cls is not None and isinstance(op, (ast.Lt, ast.Gt)):
             a, b = (l, r) if isinstance(op, ast.Lt) else (r, l)
             yield SV(BOOL, self.record_lt(a, b, st, node)), st
@@ -425,10 +464,13 @@ class CallMixin:
     def bind_params(self, fnode, args, kwargs, st, defaults_env_state=None):
         """-> dict name -> value following Python's binding rules (positional, keyword, defaults)"""
         a = fnode.args
-        if a.vararg or a.kwarg:
-            raise OutOfSubset('*args/**kwargs in signature')
+        if a.kwarg:
+            raise OutOfSubset('**kwargs in signature')
         names = [x.arg for x in a.posonlyargs + a.args]
         env = {}
+        if a.vararg:
+            env[a.vararg.arg] = TupV(list(args[len(names):]))
+            args = args[:len(names)]
         if len(args) > len(names):
             self.safety(st, z3.BoolVal(False), 'call-arity', fnode)
             raise PathEnd()
@@ -459,7 +501,7 @@ class CallMixin:
         spec = REG.fns.get(fi.qual)
         if fi.is_setter:
             spec = REG.fns.get(fi.qual)
-        if spec is not None and not spec.inline and not (self.verifying == fi.qual and False):
+        if spec is not None and not spec.inline and not spec.call_inline:
             yield from self.apply_contract(fi, spec, args, kwargs, st, node)
             return
         yield from self.inline_fn(fi, args, kwargs, st, node)
@@ -476,6 +518,8 @@ class CallMixin:
         penv = self.bind_params(fi.node, args, kwargs, st)
         sub = st.fork()
         sub.env = penv
+        if 'np_errstate' in st.env:
+            sub.env['np_errstate'] = st.env['np_errstate']
         sub.depth = st.depth + 1
         sub.module = fi.module
         sub.cls = fi.cls.qual if fi.cls else None
@@ -489,7 +533,10 @@ class CallMixin:
             self.loop_ordinals_stack.pop()
         for o in outs:
             back = o.st
+            errst = back.env.get('np_errstate')
             back.env = dict(st.env)
+            if errst is not None:
+                back.env['np_errstate'] = errst
             back.depth = st.depth
             back.module, back.cls, back.fnqual = st.module, st.cls, st.fnqual
             if o.kind == 'raise':
@@ -536,6 +583,10 @@ class CallMixin:
                 yield NONEV, back
 
     def construct(self, cv, args, kwargs, st, node):
+        if cv.qual == 'mouette.geometry.vector.Vec':
+            from .numeric import construct_vec
+            yield from construct_vec(self, args, kwargs, st, node)
+            return
         cs = REG.cls(cv.qual)
         ci = self.class_info(cv.qual)
         if ci is None:
@@ -558,7 +609,6 @@ class CallMixin:
         if init is None:
             yield obj, st
             return
-        st.init_of = getattr(st, 'init_of', None)
         for _, st1 in self.call_fn(init, [obj] + list(args), kwargs, st, node):
             yield obj, st1
 
@@ -638,7 +688,13 @@ class CallMixin:
             cur = self.deopt_quiet(cur)
             c = st.store[cur.id]
             if last == '*':
-                for f in list(c.fields):
+                cs_ = REG.cls(c.cls)
+                names = list(c.fields)
+                if cs_ is not None:
+                    for f in cs_.all_fields():
+                        if f not in c.fields:
+                            names.append(f)
+                for f in names:
                     self.havoc_field(st, cur, f)
             else:
                 self.havoc_field(st, cur, last)
@@ -721,7 +777,7 @@ INF = z3.Real('inf')
 
 BUILTIN_NAMES = {'len', 'range', 'min', 'max', 'abs', 'int', 'float', 'bool', 'tuple', 'list', 'set', 'dict', 'sorted',
                  'enumerate', 'zip', 'sum', 'isinstance', 'implies', 'iff', 'ite', 'mapset', 'round', 'type', 'str',
-                 'reversed', 'map', 'filter', 'deque', 'iter', 'next', 'hasattr', 'getattr', 'id', 'print'}
+                 'reversed', 'map', 'filter', 'deque', 'iter', 'next', 'hasattr', 'getattr', 'id', 'print', 'complex'}
 
 
 def loop_ordinals(fnode):
